@@ -416,14 +416,81 @@ void apply_varying_terms(Ctx &c) {
     c.nontrivial();
 }
 
+// ---- G: values of the measurement-noise vectors between their knots ---------------------------------
+// vnacal_new_set_m_error with a frequency grid of its own: between the knots the noise floor and the tracking
+// noise are interpolated, and data that lie on a straight line are reproduced exactly.  The values are not
+// observable directly; they weight an over-determined, slightly inconsistent calibration.  Metamorphic oracle: the
+// same two straight lines given (A) on the calibration's own grid -- every evaluation is a knot -- and (B) on
+// 2..4 knots of another grid that covers the band must lead to the same corrected device.
+void noise_values(Ctx &c) {
+    int F = 3 + (int)c.draw(5);
+    double lo = 1e6 * (double)c.range(1, 1000), hi = lo * (1.5 + 10 * c.unit());
+    std::vector<double> cal = gen_grid(c, F, lo, hi);
+    OnePort box{LC(c.real(-.1, .1), c.real(-.1, .1)), LC(c.real(-.2, .2), c.real(-.2, .2)), LC(c.real(.6, 1.1), c.real(-.3, .3))};
+    double n0 = 1e-4 * (1 + 9 * c.unit()), gn = c.real(-0.4, 2.0), t0 = 1e-3 * (1 + 9 * c.unit()), gt = c.real(-0.4, 2.0);
+    auto line = [&](double v0, double g, double f) { return v0 * (1 + g * (f - lo) / (hi - lo)); };
+    bool with_tr = c.chance(3, 4);
+    int type = c.boolean() ? VNACAL_T8 : VNACAL_E12;
+    static const LC gam[5] = {LC(-1, 0), LC(1, 0), LC(0, 0), LC(0.3L, 0.6L), LC(-0.4L, -0.5L)};
+    static const int hs[3] = {VNACAL_SHORT, VNACAL_OPEN, VNACAL_MATCH};
+    // measurements: the model plus an inconsistency of the order of the noise itself
+    std::vector<std::vector<dcx>> meas(5);
+    for (int k = 0; k < 5; k++) for (double f : cal) { LC m = box.meas(gam[k]); double sg = 0.5 * std::hypot(line(n0, gn, f), with_tr ? line(t0, gt, f) * (double)std::abs(m) : 0.0); meas[k].push_back(todcx(m + LC(sg * c.real(-1, 1), sg * c.real(-1, 1)))); }
+    int K = 2 + (int)c.draw(3);
+    std::vector<double> kf(K);
+    kf[0] = lo * (0.8 + 0.2 * c.unit()); kf[K - 1] = hi * (1 + 0.2 * c.unit());
+    if (c.chance(1, 4)) { kf[0] = lo; kf[K - 1] = hi; }
+    { std::vector<double> in; for (int i = 1; i + 1 < K; i++) in.push_back(kf[0] + (kf[K - 1] - kf[0]) * (0.1 + 0.8 * c.unit())); std::sort(in.begin(), in.end()); for (int i = 1; i + 1 < K; i++) kf[i] = in[i - 1]; }
+    for (int i = 1; i < K; i++) if (!(kf[i] > kf[i - 1] * (1 + 1e-9))) { c.label("G:filtered(coincident knots)"); return; }
+    c.label("G:noise-values-between-knots"); c.label(with_tr ? "G:with-tracking-noise" : "G:noise-floor-only"); { char l[32]; snprintf(l, sizeof l, "G:knots=%d", K); c.label(l); }
+    c.note("noise floor %.3g (slope %.2f), tracking %.3g (slope %.2f)%s; %d knots [%g..%g] vs calibration grid of %d points [%g..%g], %s", n0, gn, t0, gt, with_tr ? "" : " (not given)", K, kf[0], kf[K - 1], F, lo, hi, type == VNACAL_T8 ? "T8" : "E12");
+    VC vc; PBT_CHECK(c, vc.p, "C10.create", "vnacal_create failed");
+    LC dut(c.real(-.8, .8), c.real(-.8, .8));
+    vnadata_t *vd = vnadata_alloc(errlog_fn, &vc.log);
+    auto run = [&](const std::vector<double> &g, const char *name, std::vector<LC> &out) -> bool {
+        std::vector<double> nf, tr; for (double f : g) { nf.push_back(line(n0, gn, f)); tr.push_back(line(t0, gt, f)); }
+        vnacal_new_t *vnp = vnacal_new_alloc(vc.p, (vnacal_type_t)type, 1, 1, F);
+        PBT_CHECK(c, vnp && vnacal_new_set_frequency_vector(vnp, cal.data()) == 0, "C10.new_alloc", "vnacal_new_alloc / set_frequency_vector failed");
+        vc.log.clear();
+        PBT_CHECK(c, vnacal_new_set_m_error(vnp, g.data(), (int)g.size(), nf.data(), with_tr ? tr.data() : nullptr) == 0, "C10.noise_grid_refused", "set_m_error with a covering grid of %zu knots refused: %s", g.size(), vc.log.text().c_str());
+        for (int k = 0; k < 5; k++) {
+            dcx *mm[1] = {meas[k].data()};
+            int h = k < 3 ? hs[k] : vnacal_make_scalar_parameter(vc.p, todcx(gam[k]));
+            PBT_CHECK(c, h >= 0 && vnacal_new_add_single_reflect_m(vnp, mm, 1, 1, h, 1) == 0, "C10.add", "add failed: %s", vc.log.text().c_str());
+            if (k >= 3) vnacal_delete_parameter(vc.p, h);
+        }
+        vc.log.clear();
+        int rc = vnacal_new_solve(vnp);
+        if (rc != 0) { vnacal_new_free(vnp); return false; }
+        int ci = vnacal_add_calibration(vc.p, name, vnp); ci = vnacal_find_calibration(vc.p, name);
+        vnacal_new_free(vnp);
+        PBT_CHECK(c, ci >= 0, "C10.add_calibration", "add_calibration failed");
+        std::vector<dcx> mv; for (size_t i = 0; i < cal.size(); i++) mv.push_back(todcx(box.meas(dut)));
+        dcx *mm[1] = {mv.data()};
+        PBT_CHECK(c, vnacal_apply_m(vc.p, ci, cal.data(), F, mm, 1, 1, vd) == 0, "C10.apply_in_range_refused", "apply on the calibration grid refused: %s", vc.log.text().c_str());
+        out.clear(); for (int f = 0; f < F; f++) { dcx sv = vnadata_get_cell(vd, f, 0, 0); out.push_back(LC(re_(sv), im_(sv))); }
+        return true;
+    };
+    std::vector<LC> a, b;
+    bool oka = run(cal, "a", a), okb = run(kf, "b", b);
+    vnadata_free(vd);
+    if (!oka || !okb) { c.label(oka == okb ? "G:both-solves-failed(inconclusive)" : "G:one-solve-failed(inconclusive)"); return; }
+    long double worst = 0; int at = 0;
+    for (int f = 0; f < F; f++) { long double e = std::abs(a[f] - b[f]); if (e > worst) { worst = e; at = f; } }
+    c.track_max("noise lines on knots vs on the calibration grid: difference of the corrected device", (double)worst);
+    PBT_CHECK(c, worst <= 1e-8L, "C10.noise_interpolation", "noise floor / tracking noise on straight lines: given on %d knots [%g..%g] the corrected device differs by %.3Lg (at calibration frequency %d = %.10g) from the same lines given on the calibration grid itself", K, kf[0], kf[K - 1], worst, at, cal[at]);
+    c.nontrivial();
+}
+
 } // namespace
 
 void pbt_property(Ctx &c) {
-    switch (c.weighted({5, 4, 2, 2, 2})) {
+    switch (c.weighted({5, 4, 2, 2, 2, 2})) {
     case 0: value_queries(c); break;
     case 1: standards_and_apply(c); break;
     case 2: noise_grids(c); break;
     case 3: sigma_grids(c); break;
+    case 5: noise_values(c); break;
     default: apply_varying_terms(c); break;
     }
 }
